@@ -129,36 +129,39 @@ func propC04(r *Run, w *World) {
 	r.Rule("C04.R1", "well-known keys win: on every path of ToMapStr the stores of record_type, @timestamp, sequence, raw_msg come after the last store with a non-constant key, take their values from the header fields, and go into the map this call allocated and returns", 6)
 	{
 		fn := x.toMapStr
-		undo := autoAlias(fn)
-		want := map[string]string{
-			"record_type": "String#1", "@timestamp": "String#2", "sequence": "FormatUint#1", "raw_msg": "p0.RawData",
+		// what each well-known key must hold, as a definition (the order in which the values
+		// are computed and stored is incidental)
+		wantDef := map[string]string{
+			"record_type": fnName(x.typeString) + "(p0.RecordType)", "@timestamp": "(time.Time).String((time.Time).UTC(p0.Timestamp))",
+			"sequence": "strconv.FormatUint(uint64(p0.Sequence), 10)", "raw_msg": "p0.RawData",
 		}
-		valueDefs := map[string]string{
-			"String#1": fnName(x.typeString) + "(p0.RecordType)", "String#2": "(time.Time).String((time.Time).UTC(p0.Timestamp))",
-			"FormatUint#1": "strconv.FormatUint(uint64(p0.Sequence), 10)",
-		}
-		// resolve alias definitions structurally
-		defOK := true
+		defOf := map[ssa.Value]string{}
 		instrsOf(fn, func(in ssa.Instruction) {
-			c, ok := in.(*ssa.Call)
-			if !ok {
-				return
-			}
-			a := termAlias[c]
-			wantDef, has := valueDefs[a]
-			if !has {
-				return
-			}
-			delete(termAlias, c)
-			got := Term(c)
-			termAlias[c] = a
-			// expand nested alias UTC#1
-			got = strings.ReplaceAll(got, "UTC#1", "(time.Time).UTC(p0.Timestamp)")
-			if got != wantDef {
-				defOK = false
-				r.Fail("ToMapStr value "+a, c.Pos(), "value is "+got+", want "+wantDef)
+			if mu, ok := in.(*ssa.MapUpdate); ok {
+				if k, isC := constString(mu.Key); isC && wantDef[k] != "" {
+					defOf[mu.Value] = Term(mu.Value)
+				}
 			}
 		})
+		undo := autoAlias(fn)
+		defOK := true
+		want := map[string]string{}
+		instrsOf(fn, func(in ssa.Instruction) {
+			if mu, ok := in.(*ssa.MapUpdate); ok {
+				if k, isC := constString(mu.Key); isC && wantDef[k] != "" {
+					want[k] = Term(mu.Value) // the (aliased) spelling used in path descriptions
+					if defOf[mu.Value] != wantDef[k] {
+						defOK = false
+						r.Fail("ToMapStr value of "+k, mu.Pos(), "value is "+defOf[mu.Value]+", want "+wantDef[k])
+					}
+				}
+			}
+		})
+		for k := range wantDef {
+			if _, has := want[k]; !has {
+				want[k] = "<never stored>"
+			}
+		}
 		var mk *ssa.MakeMap
 		nMk := 0
 		instrsOf(fn, func(in ssa.Instruction) {
@@ -1210,7 +1213,8 @@ func propC12(r *Run, w *World) {
 				}
 				okDel := len(dels) == 1
 				if okDel {
-					k, _ := constString(dels[0].Instr.(*ssa.Call).Call.Args[1])
+					// the key deleted on this path (a variable set where the key was found is resolved along the path)
+					k, _ := constString(p.Resolve(dels[0].Instr.(*ssa.Call).Call.Args[1]))
 					okDel = k == src
 				}
 				pos := p.HasLit("ToLower#1 == \"yes\"") || p.HasLit("ToLower#1 == \"1\"") || p.HasLit("HasPrefix#1")
@@ -1221,7 +1225,7 @@ func propC12(r *Run, w *World) {
 					k, _ := constString(c.Call.Args[1])
 					v := ""
 					if nf, ok := c.Call.Args[2].(*ssa.Call); ok && len(nf.Call.Args) == 1 {
-						v, _ = constString(nf.Call.Args[0])
+						v, _ = constString(p.Resolve(nf.Call.Args[0]))
 					}
 					okAdd = k == "result" && ((pos && v == "success") || (neg && !pos && v == "fail"))
 				}
@@ -1629,6 +1633,29 @@ func propC12(r *Run, w *World) {
 					if bits, isK := constInt(c.Common().Args[2]); isK {
 						got = fmt.Sprintf("%s(_, 16, %d)", name, bits)
 						okW = bits == 0 || bits >= 4*maxDigits
+					} else if par, isPar := c.Common().Args[2].(*ssa.Parameter); isPar {
+						// the width is a parameter: each caller's constant against the field it passes
+						idx := -1
+						for pi, pp := range hd.Params {
+							if pp == par {
+								idx = pi
+							}
+						}
+						okW = idx >= 0
+						got = name + "(_, 16, <parameter>)"
+						for _, cs := range w.CallSites(hd) {
+							ci, isCall := cs.Instr.(ssa.CallInstruction)
+							if !isCall || idx < 0 || idx >= len(ci.Common().Args) {
+								okW = false
+								continue
+							}
+							b, isB := constInt(ci.Common().Args[idx])
+							d, okD := digits(ci.Common().Args[0])
+							if !isB || !okD || (b != 0 && b < 4*d) {
+								okW = false
+								got = fmt.Sprintf("%s(_, 16, %s) for a field of %d hex digits", name, Term(ci.Common().Args[idx]), d)
+							}
+						}
 					}
 				}
 			}
@@ -1679,8 +1706,8 @@ func propC12(r *Run, w *World) {
 			for _, c := range callsNamedIn(fn, "(auparse.fieldMap).setFieldValue") {
 				a := c.Common().Args
 				k, _ := constString(a[1])
-				ok = k == "exit" && Term(a[2]) == "auparse.AuditErrnoToName[(Atoi#1#0 * -1)]" && HoldsAt(c.Block(), "Atoi#1#0 < 0") &&
-					HoldsAt(c.Block(), "has(auparse.AuditErrnoToName, (Atoi#1#0 * -1))")
+				ok = k == "exit" && Term(a[2]) == "auparse.AuditErrnoToName[-Atoi#1#0]" && HoldsAt(c.Block(), "Atoi#1#0 < 0") &&
+					HoldsAt(c.Block(), "has(auparse.AuditErrnoToName, -Atoi#1#0)")
 			}
 			r.Check(ok, "exit", fn.Pos(), "negative exit → errno name", "negative exit codes are not translated through AuditErrnoToName[-code] (non-negative left unchanged)")
 			undo()
